@@ -1,3 +1,557 @@
-import AbacusVerif.Model.C04
+/-
+  C04 — RVint and PID bit fields decode exactly per the documented layout.
+
+  Property theorems about Model/C04.lean (which is stated over the *generated* constants of
+  Generated/BitConsts.lean, so every layout proof below re-checks what bitpacked.py says now):
+  for all 2^32 RVint words, all 2^64 aux words, all rational Box / positions / velocities,
+  all output selections and all input lengths.
+-/
+import AbacusVerif.Lemmas.C04
+
 namespace AbacusVerif.Bitpacked
+open AbacusVerif AbacusVerif.BitConsts
+
+/-! ## the constants are the documented ones -/
+
+/-- density: 10 bits from bit 49; Lagrangian indices: 15 bits at 0, 16, 32; tagged: bit 48; id mask: the
+three index masks; the masks are pairwise disjoint; RVint: shift 12, mask 0xFFF, offset 2048, Box/10^6. -/
+theorem consts_documented :
+    AUXDENS = (2 ^ 10 - 1) * 2 ^ 49 ∧ ZERODEN = 49 ∧
+    AUXXPID = 2 ^ 15 - 1 ∧ AUXYPID = (2 ^ 15 - 1) * 2 ^ 16 ∧ AUXZPID = (2 ^ 15 - 1) * 2 ^ 32 ∧
+    AUXPID = AUXXPID + AUXYPID + AUXZPID ∧ AUXTAGGED = 48 ∧
+    lagrShiftX = 0 ∧ lagrShiftY = 16 ∧ lagrShiftZ = 32 ∧ tagMask = 1 ∧ densExp = 2 ∧
+    AUXXPID &&& AUXYPID = 0 ∧ AUXXPID &&& AUXZPID = 0 ∧ AUXYPID &&& AUXZPID = 0 ∧
+    AUXPID &&& AUXDENS = 0 ∧ AUXPID &&& 2 ^ AUXTAGGED = 0 ∧ AUXDENS &&& 2 ^ AUXTAGGED = 0 ∧
+    rvShift = 12 ∧ rvVelMask = 2 ^ 12 - 1 ∧ rvVelOffset = 2048 ∧ rvPosDen = 10 ^ 6 ∧
+    PID_FIELDS = ["pid", "lagr_pos", "tagged", "density", "lagr_idx", "packedpid"] := by
+  decide
+
+example : AUXDENS = 0x07FE000000000000 ∧ AUXPID = 0x7FFF7FFF7FFF := by decide
+
+/-! ## RVint -/
+
+/-- The position field is the word, read as a signed 32-bit integer, floor-divided by 2^12 — i.e. the signed
+upper 20 bits — and lies in `[-2^19, 2^19)`. -/
+theorem rvPos_layout (w : BitVec 32) :
+    rvPos w = w.toInt / 4096 ∧ -524288 ≤ rvPos w ∧ rvPos w < 524288 := by
+  rw [rvPos_eq_div, toInt32_cond]
+  have := w.isLt
+  split <;> omega
+
+example : rvPos 0xFFFFF000#32 = -1 ∧ rvPos 0x7FFFFABC#32 = 524287 ∧ rvPos 0x80000FFF#32 = -524288 := by decide
+
+/-- The same in terms of the bit pattern: the upper 20 bits `u = w / 2^12` as an unsigned number,
+minus `2^20` when the top bit is set (two's complement). -/
+theorem rvPos_bits (w : BitVec 32) :
+    rvPos w = ((w.toNat / 4096 : Nat) : Int) - (if w.toNat / 4096 < 524288 then 0 else 1048576) := by
+  rw [rvPos_eq_div, toInt32_cond]
+  have := w.isLt
+  split <;> split <;> omega
+
+example : rvPos 0x80000FFF#32 = ((0x80000 : Nat) : Int) - 1048576 := by decide
+
+/-- The velocity field is the lower 12 bits minus 2048. -/
+theorem rvVel_layout (w : BitVec 32) : rvVel w = ((w.toNat % 4096 : Nat) : Int) - 2048 :=
+  rvVel_eq_mod w
+
+example : rvVel 0xFFFFF000#32 = -2048 ∧ rvVel 0x12345FFF#32 = 2047 ∧ rvVel 0x80000800#32 = 0 := by decide
+
+theorem rvVel_range (w : BitVec 32) : -2048 ≤ rvVel w ∧ rvVel w < 2048 := by
+  rw [rvVel_layout]; omega
+
+example : rvVel 0#32 = -2048 := by decide
+
+/-- The sign extension is arithmetic: the word with only bit 31 set decodes to the most negative position
+(this is the value the translator observed on the real kernel). -/
+theorem rvPos_top_bit : rvPos 0x80000000#32 = rvPosTopBit ∧ rvPosTopBit = -524288 := by decide
+
+/-- The position depends only on bits 12–31 and the velocity only on bits 0–11; in particular both are
+given by the tables over the upper 20 / lower 12 bits that the exhaustive check uses. -/
+theorem rv_fields_independent (w w' : BitVec 32) :
+    (w.toNat / 4096 = w'.toNat / 4096 → rvPos w = rvPos w') ∧
+    (w.toNat % 4096 = w'.toNat % 4096 → rvVel w = rvVel w') ∧
+    rvPos w = rvPos (BitVec.ofNat 32 (w.toNat / 4096 * 4096)) ∧
+    rvVel w = rvVel (BitVec.ofNat 32 (w.toNat % 4096)) := by
+  refine ⟨fun h => by rw [rvPos_bits, rvPos_bits, h], fun h => by rw [rvVel_layout, rvVel_layout, h], ?_, ?_⟩
+  · rw [rvPos_bits, rvPos_bits, BitVec.toNat_ofNat]
+    have := w.isLt
+    have : (w.toNat / 4096 * 4096) % 2 ^ 32 / 4096 = w.toNat / 4096 := by omega
+    rw [this]
+  · rw [rvVel_layout, rvVel_layout, BitVec.toNat_ofNat]
+    have : w.toNat % 4096 % 2 ^ 32 % 4096 = w.toNat % 4096 := by omega
+    rw [this]
+
+example : rvPos 0x12345678#32 = rvPos 0x12345FFF#32 ∧ rvVel 0x12345678#32 = rvVel 0xFFFFF678#32 := by decide
+
+/-- physical scales: `Box/10^6` per position unit, `6000/2048` km/s per velocity unit -/
+theorem rv_scales (box : ℚ) (w : BitVec 32) :
+    rvPosPhys box w = (rvPos w : ℚ) * box / 10 ^ 6 ∧ rvVelPhys w = (rvVel w : ℚ) * 6000 / 2048 := by
+  unfold rvPosPhys rvVelPhys posScale velScale
+  simp only [rvPosDen, rvVelScaleNum, rvVelScaleDen]
+  constructor <;> ring
+
+example : rvPosPhys 2000 0x00001000#32 = 1 / 500 ∧ rvVelPhys 0x00000801#32 = 375 / 128 := by
+  constructor <;> decide +kernel
+
+/-! ### decode ∘ encode -/
+
+/-- A word built from an in-range position `p` and 12-bit velocity code `v` decodes to exactly `p` and `v - 2048`. -/
+theorem rv_decode_encWord (p v : Int) (hp : -524288 ≤ p ∧ p < 524288) (hv : 0 ≤ v ∧ v < 4096) :
+    rvPos (encWord p v) = p ∧ rvVel (encWord p v) = v - 2048 := by
+  have hI : (encWord p v).toInt = p * 4096 + v := by
+    unfold encWord
+    rw [BitVec.toInt_ofInt, Int.bmod_def]
+    split <;> omega
+  have hN : ((encWord p v).toNat : Int) = (p * 4096 + v) % 4294967296 := by
+    unfold encWord
+    rw [BitVec.toNat_ofInt]
+    have : (0 : Int) ≤ (p * 4096 + v) % ((2 ^ 32 : Nat) : Int) := Int.emod_nonneg _ (by decide)
+    rw [Int.toNat_of_nonneg this]
+    rfl
+  constructor
+  · rw [rvPos_eq_div, hI]; omega
+  · rw [rvVel_layout]; omega
+
+example : rvPos (encWord (-3) 5) = -3 ∧ rvVel (encWord (-3) 5) = 5 - 2048 := by decide
+
+/-- **Round trip, positions.**  For every box size `box > 0` and every rational position `x` whose code
+`round(x·10^6/box)` fits the signed 20 bits (and any velocity code), decoding the encoded word returns `x` to
+within half a position quantum `box / (2·10^6)`. -/
+theorem rv_roundtrip_pos (box x : ℚ) (v : Int) (hbox : 0 < box)
+    (hp : -524288 ≤ encPos box x ∧ encPos box x < 524288) (hv : 0 ≤ v ∧ v < 4096) :
+    |rvPosPhys box (encWord (encPos box x) v) - x| ≤ box / 10 ^ 6 / 2 := by
+  have hs : 0 < posScale box := by
+    unfold posScale; simp only [rvPosDen]; positivity
+  have hsc : posScale box = box / 10 ^ 6 := by unfold posScale; simp only [rvPosDen]; norm_num
+  unfold rvPosPhys
+  rw [(rv_decode_encWord _ v hp hv).1, ← hsc]
+  unfold encPos
+  have h := rhe_close (x / posScale box)
+  have hx : x = x / posScale box * posScale box := by field_simp
+  generalize x / posScale box = y at h hx
+  rw [hx, ← sub_mul, abs_mul, abs_of_pos hs]
+  calc |((rhe y : Int) : ℚ) - y| * posScale box ≤ 1 / 2 * posScale box :=
+        mul_le_mul_of_nonneg_right h hs.le
+    _ = posScale box / 2 := by ring
+
+example : (-524288 ≤ encPos 2000 (123456789 / 1000000) ∧ encPos 2000 (123456789 / 1000000) < 524288) := by
+  decide +kernel
+
+/-- **Round trip, velocities.**  For every rational velocity `u` whose code `round(u·2048/6000) + 2048` fits the
+12 bits (and any in-range position code), decoding returns `u` to within half a velocity quantum. -/
+theorem rv_roundtrip_vel (u : ℚ) (p : Int) (hp : -524288 ≤ p ∧ p < 524288)
+    (hv : 0 ≤ encVel u ∧ encVel u < 4096) :
+    |rvVelPhys (encWord p (encVel u)) - u| ≤ 6000 / 2048 / 2 := by
+  have hs : (0 : ℚ) < velScale := by
+    unfold velScale; simp only [rvVelScaleNum, rvVelScaleDen]; norm_num
+  have hsc : velScale = 6000 / 2048 := by
+    unfold velScale; simp only [rvVelScaleNum, rvVelScaleDen]; norm_num
+  unfold rvVelPhys
+  rw [(rv_decode_encWord p _ hp hv).2, ← hsc]
+  unfold encVel
+  simp only [rvVelOffset]
+  have h := rhe_close (u / velScale)
+  have hu : u = u / velScale * velScale := by field_simp
+  generalize u / velScale = y at h hu
+  have he : ((rhe y + ((2048 : Nat) : Int) - 2048 : Int) : ℚ) = ((rhe y : Int) : ℚ) := by push_cast; ring
+  rw [he, hu, ← sub_mul, abs_mul, abs_of_pos hs]
+  calc |((rhe y : Int) : ℚ) - y| * velScale ≤ 1 / 2 * velScale :=
+        mul_le_mul_of_nonneg_right h hs.le
+    _ = velScale / 2 := by ring
+
+example : (0 ≤ encVel (-12345 / 10) ∧ encVel (-12345 / 10) < 4096) := by decide +kernel
+
+/-! ## aux words -/
+
+/-- The three Lagrangian indices are the 15-bit fields at bits 0–14, 16–30, 32–46 (the uint64 value used for
+`lagr_pos`). -/
+theorem aux_lagrCoord_layout (k : Fin 3) (w : BitVec 64) :
+    lagrCoord k w = w.toNat / 2 ^ (16 * k.val) % 2 ^ 15 := lagrCoord_eq k w
+
+example : lagrCoord 0 0xFFFF800180027FFF#64 = 0x7FFF ∧ lagrCoord 1 0xFFFF800180027FFF#64 = 2 ∧
+    lagrCoord 2 0xFFFF800180027FFF#64 = 1 := by decide
+
+/-- … and the `int16` array `lagr_idx` receives the same value (no wrap-around in the 16-bit store). -/
+theorem aux_lagrIdx_layout (k : Fin 3) (w : BitVec 64) :
+    lagrIdx k w = ((w.toNat / 2 ^ (16 * k.val) % 2 ^ 15 : Nat) : Int) := by
+  rw [lagrIdx_eq, lagrCoord_eq]
+
+example : lagrIdx 1 0xFFFFFFFFFFFFFFFF#64 = 32767 := by decide
+
+/-- Lagrangian position = index · Box/ppd − Box/2. -/
+theorem aux_lagrPos_layout (box : ℚ) (ppd : Int) (k : Fin 3) (w : BitVec 64) :
+    lagrPos box ppd k w = ((w.toNat / 2 ^ (16 * k.val) % 2 ^ 15 : Nat) : ℚ) * box / (ppd : ℚ) - box / 2 := by
+  unfold lagrPos
+  rw [lagrCoord_eq]
+  ring
+
+example : lagrPos 2000 1000 1 0x0000000000030000#64 = -994 := by decide +kernel
+
+/-- The tagged flag is bit 48. -/
+theorem aux_tagged_layout (w : BitVec 64) : tagged w = w.toNat / 2 ^ 48 % 2 := tagged_eq w
+
+example : tagged 0x0001000000000000#64 = 1 ∧ tagged 0xFFFEFFFFFFFFFFFF#64 = 0 := by decide
+
+/-- The density is the square of the 10-bit field at bits 49–58 (no overflow in the uint64 square). -/
+theorem aux_density_layout (w : BitVec 64) : density w = (w.toNat / 2 ^ 49 % 2 ^ 10) ^ 2 := by
+  unfold density
+  rw [densField_eq]
+  simp only [densExp]
+  have h : w.toNat / 2 ^ 49 % 2 ^ 10 < 2 ^ 10 := Nat.mod_lt _ (by decide)
+  generalize w.toNat / 2 ^ 49 % 2 ^ 10 = d at h
+  apply Nat.mod_eq_of_lt
+  calc d ^ 2 = d * d := by ring
+    _ ≤ 2 ^ 10 * 2 ^ 10 := Nat.mul_le_mul h.le h.le
+    _ < 2 ^ 64 := by decide
+
+example : density 0x07FE000000000000#64 = 1023 ^ 2 ∧ density 0xF801FFFFFFFFFFFF#64 = 0 := by decide
+
+/-- The particle id is the non-negative number made of the three index fields in place. -/
+theorem aux_pid_layout (w : BitVec 64) :
+    pid w = ((w.toNat % 2 ^ 15 + (w.toNat / 2 ^ 16 % 2 ^ 15) * 2 ^ 16 + (w.toNat / 2 ^ 32 % 2 ^ 15) * 2 ^ 32 : Nat) : Int) := by
+  rw [pid_eq]
+  congr 1
+  generalize w.toNat = a
+  have e0 : (a &&& AUXPID) % 2 ^ 16 = a % 2 ^ 15 := by
+    rw [Nat.and_mod_two_pow, show AUXPID % 2 ^ 16 = 2 ^ 15 - 1 by decide, Nat.and_two_pow_sub_one_eq_mod]
+    omega
+  have e1 : (a &&& AUXPID) / 2 ^ 16 % 2 ^ 16 = a / 2 ^ 16 % 2 ^ 15 := by
+    rw [Nat.and_div_two_pow, Nat.and_mod_two_pow, show AUXPID / 2 ^ 16 % 2 ^ 16 = 2 ^ 15 - 1 by decide,
+      Nat.and_two_pow_sub_one_eq_mod]
+    omega
+  have e2 : (a &&& AUXPID) / 2 ^ 16 / 2 ^ 16 = a / 2 ^ 32 % 2 ^ 15 := by
+    rw [Nat.and_div_two_pow, Nat.and_div_two_pow, show AUXPID / 2 ^ 16 / 2 ^ 16 = 2 ^ 15 - 1 by decide,
+      Nat.and_two_pow_sub_one_eq_mod]
+    omega
+  generalize a &&& AUXPID = x at e0 e1 e2
+  omega
+
+example : pid 0xFFFFFFFFFFFFFFFF#64 = 0x7FFF7FFF7FFF := by decide
+
+/-- Bit `i` of the particle id is bit `i` of the word when `i` is one of the 45 id bits (`i < 47`, `i mod 16 < 15`)
+and is clear otherwise: density, tagged and the spare bits 15, 31, 47, 59–63 never leak into the id. -/
+theorem pid_has_only_id_bits (w : BitVec 64) :
+    0 ≤ pid w ∧ ∀ i : Nat, (pid w).toNat.testBit i = (w.toNat.testBit i && decide (i < 47 ∧ i % 16 < 15)) := by
+  rw [pid_eq]
+  refine ⟨Int.natCast_nonneg _, fun i => ?_⟩
+  rw [Int.toNat_natCast, Nat.testBit_and, auxpid_testBit]
+
+example : (pid 0xFFFFFFFFFFFFFFFF#64).toNat.testBit 46 = true ∧ (pid 0xFFFFFFFFFFFFFFFF#64).toNat.testBit 47 = false ∧
+    (pid 0xFFFFFFFFFFFFFFFF#64).toNat.testBit 48 = false := by decide
+
+/-- Each field is a function of the word's bits under the field's own mask only: two words that agree there
+decode to the same field, whatever their other bits are. -/
+theorem aux_fields_independent (w w' : BitVec 64) :
+    (∀ k : Fin 3, w &&& BitVec.ofNat 64 (lagrMask k) = w' &&& BitVec.ofNat 64 (lagrMask k) →
+      lagrCoord k w = lagrCoord k w' ∧ lagrIdx k w = lagrIdx k w' ∧
+      ∀ box ppd, lagrPos box ppd k w = lagrPos box ppd k w') ∧
+    (w &&& BitVec.ofNat 64 (2 ^ AUXTAGGED) = w' &&& BitVec.ofNat 64 (2 ^ AUXTAGGED) → tagged w = tagged w') ∧
+    (w &&& BitVec.ofNat 64 AUXDENS = w' &&& BitVec.ofNat 64 AUXDENS → density w = density w') ∧
+    (w &&& BitVec.ofNat 64 AUXPID = w' &&& BitVec.ofNat 64 AUXPID → pid w = pid w') := by
+  refine ⟨fun k h => ?_, fun h => ?_, fun h => ?_, fun h => ?_⟩
+  · have hc : lagrCoord k w = lagrCoord k w' := by unfold lagrCoord field; rw [h]
+    refine ⟨hc, by unfold lagrIdx field; rw [h], fun box ppd => by unfold lagrPos; rw [hc]⟩
+  · rw [tagged_eq, tagged_eq]
+    have h' := congrArg BitVec.toNat h
+    simp only [BitVec.toNat_and, BitVec.toNat_ofNat, AUXTAGGED] at h'
+    rw [Nat.mod_eq_of_lt (by decide)] at h'
+    have hb : w.toNat.testBit 48 = w'.toNat.testBit 48 := by
+      have := congrArg (fun n => Nat.testBit n 48) h'
+      have t : Nat.testBit 281474976710656 48 = true := by decide
+      simpa [Nat.testBit_and, t] using this
+    rw [Nat.testBit_eq_decide_div_mod_eq, Nat.testBit_eq_decide_div_mod_eq] at hb
+    have := Nat.mod_lt (w.toNat / 2 ^ 48) (show 0 < 2 by decide)
+    have := Nat.mod_lt (w'.toNat / 2 ^ 48) (show 0 < 2 by decide)
+    have hiff := decide_eq_decide.mp hb
+    omega
+  · unfold density densField field; rw [h]
+  · unfold pid; rw [h]
+
+example : tagged 0x0001FFFFFFFFFFFF#64 = tagged 0x0001000000000000#64 ∧
+    lagrCoord 1 0xFFFF12345678FFFF#64 = lagrCoord 1 0x0000000056780000#64 := by decide
+
+/-- Flipping any set of bits outside a field's mask leaves the field unchanged. -/
+theorem aux_fields_ignore_other_bits (w d : BitVec 64) :
+    (∀ k : Fin 3, d &&& BitVec.ofNat 64 (lagrMask k) = 0#64 → lagrCoord k (w ^^^ d) = lagrCoord k w ∧ lagrIdx k (w ^^^ d) = lagrIdx k w) ∧
+    (d &&& BitVec.ofNat 64 (2 ^ AUXTAGGED) = 0#64 → tagged (w ^^^ d) = tagged w) ∧
+    (d &&& BitVec.ofNat 64 AUXDENS = 0#64 → density (w ^^^ d) = density w) ∧
+    (d &&& BitVec.ofNat 64 AUXPID = 0#64 → pid (w ^^^ d) = pid w) := by
+  have key : ∀ m : BitVec 64, d &&& m = 0#64 → (w ^^^ d) &&& m = w &&& m := by
+    intro m hm
+    apply BitVec.eq_of_toNat_eq
+    have h0 : d.toNat &&& m.toNat = 0 := by
+      have := congrArg BitVec.toNat hm
+      simpa using this
+    rw [BitVec.toNat_and, BitVec.toNat_xor, Nat.and_xor_distrib_right, h0, BitVec.toNat_and]
+    simp
+  have ind := aux_fields_independent (w ^^^ d) w
+  refine ⟨fun k h => ?_, fun h => ind.2.1 (key _ h), fun h => ind.2.2.1 (key _ h), fun h => ind.2.2.2 (key _ h)⟩
+  have := ind.1 k (key _ h)
+  exact ⟨this.1, this.2.1⟩
+
+example : density (0x07FE000000000000#64 ^^^ 0xF801FFFFFFFFFFFF#64) = density 0x07FE000000000000#64 := by decide
+
+/-! ## kernels and wrappers: output selection -/
+
+/-- **The kernel loop.**  If every requested output array has at least `N = xs.length` rows, the kernel does not
+fault and output `j` receives exactly the writes `(i, f_j(xs[i]))` for `i = 0 … N-1` (nothing for an output that
+is `None`) — a function of that output's own slot and of the input only. -/
+theorem kernel_spec {ι : Type} (slots : List (Slot ι)) (xs : List ι)
+    (h : ∀ s ∈ slots, ∀ r, s.rows = some r → xs.length ≤ r) :
+    kernel slots xs = .ok (slots.map (fun s => slotWrites s 0 xs)) := by
+  unfold kernel
+  have hf : Fits (slots.map (fun s => (s, ([] : Writes)))) (0 + xs.length) := by
+    intro p hp r hr
+    obtain ⟨s, hs, rfl⟩ := List.mem_map.mp hp
+    simpa using h s hs r hr
+  rw [runSlots_ok xs 0 _ hf]
+  simp [List.map_map, Function.comp]
+
+/-- If some requested output array is shorter than the input, the kernel faults with an out-of-bounds store. -/
+theorem kernel_oob {ι : Type} (slots : List (Slot ι)) (xs : List ι)
+    (h : ∃ s ∈ slots, ∃ r, s.rows = some r ∧ r < xs.length) :
+    kernel slots xs = .error .oob := by
+  unfold kernel
+  rw [runSlots_err xs 0]
+  · obtain ⟨s, hs, r, hr, hlt⟩ := h
+    exact ⟨(s, []), List.mem_map.mpr ⟨s, hs, rfl⟩, r, hr, by simpa using hlt⟩
+  · intro p _ r _; exact Nat.zero_le r
+
+example : kernel [⟨some 2, fun (w : BitVec 64) => .int (pid w)⟩, ⟨none, fun w => .int (tagged w)⟩] [5#64, 6#64] =
+    .ok [[(0, .int 5), (1, .int 6)], []] := by decide
+example : kernel [⟨some 1, fun (w : BitVec 64) => .int (pid w)⟩] [5#64, 6#64] = .error .oob := by decide
+
+/-- a supplied array must be viewable as `(-1, 3)` -/
+def shapeOk : OutReq → Bool
+  | .supplied n => n % 3 = 0
+  | _ => true
+
+/-- … and have at least `N` rows -/
+def fits (N : Nat) : OutReq → Bool
+  | .supplied n => N ≤ n / 3
+  | _ => true
+
+/-- what `unpack_rvint` returns for one output: a function of that output's request and of the data only -/
+def expectedRet (req : OutReq) (f : Row32 → Val) (data : List Row32) : Ret :=
+  match req with
+  | .allocate => .arr data.length (fullWrites f data)
+  | .skip => .cnt 0 []
+  | .supplied _ => .cnt data.length (fullWrites f data)
+
+/-- **`unpack_rvint`, completely.**  Input that is not a whole number of triples, or a supplied array that
+cannot be viewed as `(-1,3)`, is rejected; a supplied array with fewer rows than the input is an out-of-bounds
+store; otherwise each of the two returned values is `expectedRet` of *its own* request: a new `(N,3)` array
+with every row decoded (`None`), the integer 0 and nothing written (`False`), or the integer `N` with rows
+`0…N-1` of the caller's array written and the rest untouched (supplied). -/
+theorem unpackRvint_spec (flat : List (BitVec 32)) (box : Rat) (posout velout : OutReq) :
+    unpackRvint flat box posout velout =
+      match triples flat with
+      | none => .error .rejected
+      | some data =>
+        if shapeOk posout && shapeOk velout then
+          if fits data.length posout && fits data.length velout then
+            .ok (expectedRet posout (posRow box) data, expectedRet velout velRow data)
+          else .error .oob
+        else .error .rejected := by
+  unfold unpackRvint
+  cases htr : triples flat with
+  | none => rfl
+  | some data =>
+    simp only
+    have hrows : ∀ req : OutReq, req.rows data.length =
+        if shapeOk req then .ok (match req with | .allocate => some data.length | .skip => none | .supplied n => some (n / 3))
+        else .error .rejected := by
+      intro req; cases req <;> simp [OutReq.rows, shapeOk]
+    rw [hrows posout, hrows velout]
+    cases hsp : shapeOk posout
+    · cases hsv : shapeOk velout <;> simp
+    cases hsv : shapeOk velout
+    · simp
+    simp only [Bool.and_self, if_true]
+    unfold kernelRvint
+    cases hfp : fits data.length posout <;> cases hfv : fits data.length velout <;>
+      simp only [Bool.false_and, Bool.and_false, Bool.and_self, if_true, if_false, Bool.false_eq_true]
+    · rw [kernel_oob]
+      cases posout <;> simp [fits] at hfp
+      exact ⟨_, List.mem_cons_self, _, rfl, by omega⟩
+    · rw [kernel_oob]
+      cases posout <;> simp [fits] at hfp
+      exact ⟨_, List.mem_cons_self, _, rfl, by omega⟩
+    · rw [kernel_oob]
+      cases velout <;> simp [fits] at hfv
+      exact ⟨_, List.mem_cons_of_mem _ List.mem_cons_self, _, rfl, by omega⟩
+    · rw [kernel_spec]
+      · cases posout <;> cases velout <;>
+          simp [slotWrites_some, slotWrites_none, OutReq.ret, expectedRet]
+      · intro s hs r hr
+        simp only [List.mem_cons, List.mem_nil_iff, or_false] at hs
+        rcases hs with rfl | rfl
+        · cases posout <;> simp [fits] at hfp hr <;> omega
+        · cases velout <;> simp [fits] at hfv hr <;> omega
+
+example : unpackRvint [0xFFFFF000#32, 0x00001FFF#32, 0x80000800#32] 2000 (.supplied 6) .skip =
+    .ok (.cnt 1 [(0, .triRat (-1/500) (1/500) (-131072/125))], .cnt 0 []) := by decide +kernel
+example : unpackRvint [1#32, 2#32, 3#32, 4#32, 5#32, 6#32] 2000 (.supplied 3) .allocate = .error .oob := by decide +kernel
+
+/-- the particles-per-dimension `unpack_pids` passes on: 1 when absent, the rounded value when it is close to an
+integer, otherwise the call is rejected -/
+def ppdOf : Option Rat → Option Int
+  | none => some 1
+  | some q => if ppdValid q then some (rhe q) else none
+
+/-- the dict `unpack_pids` returns, as a function of the arguments: one entry per requested field, in the order
+pid, lagr_pos, lagr_idx, tagged, density, each an `N`-row array with every row decoded -/
+def expectedPids (packed : List (BitVec 64)) (box : Rat) (ppd : Int) (sel : PidSel) : List (String × Nat × Writes) :=
+  (if sel.pid then [("pid", packed.length, fullWrites (fun w => .int (pid w)) packed)] else []) ++
+  (if sel.lagrPos then [("lagr_pos", packed.length, fullWrites (lagrPosRow box ppd) packed)] else []) ++
+  (if sel.lagrIdx then [("lagr_idx", packed.length, fullWrites lagrIdxRow packed)] else []) ++
+  (if sel.tagged then [("tagged", packed.length, fullWrites (fun w => .int (tagged w)) packed)] else []) ++
+  (if sel.density then [("density", packed.length, fullWrites (fun w => .int (density w)) packed)] else [])
+
+private theorem mem_expectedPids (packed : List (BitVec 64)) (box : Rat) (ppd : Int) (sel : PidSel) (e : String × Nat × Writes) :
+    e ∈ expectedPids packed box ppd sel ↔
+      (sel.pid = true ∧ e = ("pid", packed.length, fullWrites (fun w => .int (pid w)) packed)) ∨
+      (sel.lagrPos = true ∧ e = ("lagr_pos", packed.length, fullWrites (lagrPosRow box ppd) packed)) ∨
+      (sel.lagrIdx = true ∧ e = ("lagr_idx", packed.length, fullWrites lagrIdxRow packed)) ∨
+      (sel.tagged = true ∧ e = ("tagged", packed.length, fullWrites (fun w => .int (tagged w)) packed)) ∨
+      (sel.density = true ∧ e = ("density", packed.length, fullWrites (fun w => .int (density w)) packed)) := by
+  have aux : ∀ (c : Bool) (x : String × Nat × Writes), e ∈ (if c = true then [x] else []) ↔ (c = true ∧ e = x) := by
+    intro c x; cases c <;> simp
+  simp only [expectedPids, List.mem_append, aux, or_assoc]
+
+/-- **`unpack_pids`, completely.**  `lagr_pos` without `box` or `ppd`, a `ppd` that is not (close to) an integer,
+and `ppd = 0` are rejected; otherwise exactly the requested fields are returned, each decoded on every row
+by its own formula — no entry depends on which other fields were requested. -/
+theorem unpackPids_spec (packed : List (BitVec 64)) (box ppd : Option Rat) (sel : PidSel) :
+    unpackPids packed box ppd sel =
+      if sel.lagrPos && (box.isNone || ppd.isNone) then .error .rejected
+      else match ppdOf ppd with
+        | none => .error .rejected
+        | some P => if P = 0 then .error .rejected else .ok (expectedPids packed (boxOf box) P sel) := by
+  have core : ∀ (b : Rat) (P : Int), unpackPidsCore packed b P sel =
+      if P = 0 then .error .rejected else .ok (expectedPids packed b P sel) := by
+    intro b P
+    unfold unpackPidsCore kernelPids
+    by_cases hP0 : P = 0
+    · simp [hP0]
+    · simp only [hP0, if_false]
+      rw [kernel_spec]
+      · obtain ⟨a, b, c, d, e⟩ := sel
+        cases a <;> cases b <;> cases c <;> cases d <;> cases e <;>
+          simp [pidSlots, optRows, slotWrites_some, slotWrites_none, expectedPids]
+      · intro s hs r hr
+        obtain ⟨a, b, c, d, e⟩ := sel
+        simp only [pidSlots, List.mem_cons, List.mem_nil_iff, or_false] at hs
+        rcases hs with rfl | rfl | rfl | rfl | rfl <;>
+          (simp only [optRows] at hr; split at hr <;> simp at hr; omega)
+  unfold unpackPids
+  split
+  · rfl
+  · cases ppd with
+    | none => simp only [ppdOf, core]
+    | some q =>
+      simp only [ppdOf]
+      by_cases hv : ppdValid q = true
+      · simp only [hv, if_true, core]
+      · simp only [hv]; rfl
+
+example : unpackPids [0x0001000000030002#64] (some 2000) (some 1000) ⟨true, false, true, false, false⟩ =
+    .ok [("pid", 1, [(0, .int 0x30002)]), ("tagged", 1, [(0, .int 1)])] := by decide +kernel
+example : unpackPids [5#64] none none ⟨false, true, false, false, false⟩ = .error .rejected := by decide +kernel
+example : unpackPids [5#64] (some 1) (some (3/2)) ⟨true, false, false, false, false⟩ = .error .rejected := by decide +kernel
+
+/-- **Results are the same whichever outputs are requested.**
+(a) `unpack_rvint`: when two calls on the same data both succeed, the value returned for (and the rows written
+to) the position output are the same whatever was asked for the velocity output, and vice versa.
+(b) `unpack_pids`: when two calls with the same `box`/`ppd` both succeed, a field requested in both is returned
+identically, whatever else was requested; and a field is returned iff it was requested. -/
+theorem outputs_independent_of_selection :
+    (∀ (flat : List (BitVec 32)) (box : Rat) (po vo vo' : OutReq) (p v p' v' : Ret),
+      unpackRvint flat box po vo = .ok (p, v) → unpackRvint flat box po vo' = .ok (p', v') → p = p') ∧
+    (∀ (flat : List (BitVec 32)) (box : Rat) (po po' vo : OutReq) (p v p' v' : Ret),
+      unpackRvint flat box po vo = .ok (p, v) → unpackRvint flat box po' vo = .ok (p', v') → v = v') ∧
+    (∀ (packed : List (BitVec 64)) (box ppd : Option Rat) (sel sel' : PidSel) (d d' : List (String × Nat × Writes)),
+      unpackPids packed box ppd sel = .ok d → unpackPids packed box ppd sel' = .ok d' →
+      ∀ name, (∀ e ∈ d, ∀ e' ∈ d', e.1 = name → e'.1 = name → e = e') ∧
+        ((∃ e ∈ d, e.1 = name) ↔
+          (name = "pid" ∧ sel.pid) ∨ (name = "lagr_pos" ∧ sel.lagrPos) ∨ (name = "lagr_idx" ∧ sel.lagrIdx) ∨
+          (name = "tagged" ∧ sel.tagged) ∨ (name = "density" ∧ sel.density))) := by
+  refine ⟨?_, ?_, ?_⟩
+  · intro flat box po vo vo' p v p' v' h h'
+    rw [unpackRvint_spec] at h h'
+    cases htr : triples flat with
+    | none => simp [htr] at h
+    | some data =>
+      simp only [htr] at h h'
+      split at h <;> [skip; cases h]
+      split at h <;> [skip; cases h]
+      split at h' <;> [skip; cases h']
+      split at h' <;> [skip; cases h']
+      cases h; cases h'; rfl
+  · intro flat box po po' vo p v p' v' h h'
+    rw [unpackRvint_spec] at h h'
+    cases htr : triples flat with
+    | none => simp [htr] at h
+    | some data =>
+      simp only [htr] at h h'
+      split at h <;> [skip; cases h]
+      split at h <;> [skip; cases h]
+      split at h' <;> [skip; cases h']
+      split at h' <;> [skip; cases h']
+      cases h; cases h'; rfl
+  · intro packed box ppd sel sel' d d' h h' name
+    rw [unpackPids_spec] at h h'
+    split at h <;> [cases h; skip]
+    split at h' <;> [cases h'; skip]
+    cases hP : ppdOf ppd with
+    | none => simp [hP] at h
+    | some P =>
+      simp only [hP] at h h'
+      split at h <;> [cases h; skip]
+      split at h' <;> [cases h'; skip]
+      cases h; cases h'
+      constructor
+      · intro x hx y hy hxn hyn
+        rw [mem_expectedPids] at hx hy
+        rcases hx with ⟨_, rfl⟩ | ⟨_, rfl⟩ | ⟨_, rfl⟩ | ⟨_, rfl⟩ | ⟨_, rfl⟩ <;>
+          rcases hy with ⟨_, rfl⟩ | ⟨_, rfl⟩ | ⟨_, rfl⟩ | ⟨_, rfl⟩ | ⟨_, rfl⟩ <;>
+          first
+            | rfl
+            | (exfalso; simp only at hxn hyn; subst hxn; simp at hyn)
+      · constructor
+        · rintro ⟨x, hx, rfl⟩
+          rw [mem_expectedPids] at hx
+          rcases hx with ⟨h, rfl⟩ | ⟨h, rfl⟩ | ⟨h, rfl⟩ | ⟨h, rfl⟩ | ⟨h, rfl⟩ <;> simp [h]
+        · rintro (⟨rfl, h⟩ | ⟨rfl, h⟩ | ⟨rfl, h⟩ | ⟨rfl, h⟩ | ⟨rfl, h⟩)
+          · exact ⟨_, (mem_expectedPids ..).mpr (Or.inl ⟨h, rfl⟩), rfl⟩
+          · exact ⟨_, (mem_expectedPids ..).mpr (Or.inr (Or.inl ⟨h, rfl⟩)), rfl⟩
+          · exact ⟨_, (mem_expectedPids ..).mpr (Or.inr (Or.inr (Or.inl ⟨h, rfl⟩))), rfl⟩
+          · exact ⟨_, (mem_expectedPids ..).mpr (Or.inr (Or.inr (Or.inr (Or.inl ⟨h, rfl⟩)))), rfl⟩
+          · exact ⟨_, (mem_expectedPids ..).mpr (Or.inr (Or.inr (Or.inr (Or.inr ⟨h, rfl⟩)))), rfl⟩
+
+example : (unpackRvint [1#32, 2#32, 3#32] 2000 .allocate .skip).toBool = true ∧
+    (unpackRvint [1#32, 2#32, 3#32] 2000 .allocate (.supplied 6)).toBool = true ∧
+    (unpackPids [7#64] (some 2000) (some 1000) ⟨true, true, false, false, true⟩).toBool = true ∧
+    (unpackPids [7#64] (some 2000) (some 1000) ⟨false, true, true, true, false⟩).toBool = true := by decide +kernel
+
+/-- `empty_bitpacked_arrays(N, True)` creates an array for every name in `PID_FIELDS`, and for any request only
+names from the documented set, each with its documented dtype and shape. -/
+theorem emptyArrays_all :
+    (∀ n ∈ PID_FIELDS, ∃ e ∈ emptyArrays .all, e.1 = n) ∧
+    emptyArrays .all = [("pid", "i8", 1), ("lagr_pos", "f", 3), ("lagr_idx", "i2", 3), ("tagged", "u1", 1),
+                        ("density", "f", 1), ("packedpid", "u8", 1)] ∧
+    emptyArrays .pidOnly = [("pid", "i8", 1)] ∧
+    (∀ bits, ∀ e ∈ emptyArrays bits, e ∈ emptyArrays .all ∧ e.1 ∈ bits.names) := by
+  refine ⟨by decide, by decide, by decide, ?_⟩
+  intro bits e he
+  have hall : emptyArrays .all = [("pid", "i8", 1), ("lagr_pos", "f", 3), ("lagr_idx", "i2", 3), ("tagged", "u1", 1),
+                        ("density", "f", 1), ("packedpid", "u8", 1)] := by decide
+  rw [hall]
+  have aux : ∀ (c : Prop) [Decidable c] (x : String × String × Nat), e ∈ (if c then [x] else []) ↔ (c ∧ e = x) := by
+    intro c _ x; by_cases hc : c <;> simp [hc]
+  simp only [emptyArrays, List.mem_append, aux] at he
+  rcases he with ((((⟨h, rfl⟩ | ⟨h, rfl⟩) | ⟨h, rfl⟩) | ⟨h, rfl⟩) | ⟨h, rfl⟩) | ⟨h, rfl⟩ <;> exact ⟨by decide, h⟩
+
+example : emptyArrays (.many ["tagged", "lagr_pos", "nonsense"]) = [("lagr_pos", "f", 3), ("tagged", "u1", 1)] := by decide
+
 end AbacusVerif.Bitpacked
